@@ -294,12 +294,26 @@ def numeric_grad(e, arrays, g, k, h=2e-3):
     return num
 
 
-def run_vjp(e, seed):
+def relayout(a, layout):
+    """same values, another memory layout: 1 = Fortran order, 2 = negative strides, 3 = every other element of a wider buffer"""
+    if a.ndim == 0 or layout == 0:
+        return a.copy()
+    if layout == 1:
+        return np.asfortranarray(a) if a.ndim >= 2 else np.ascontiguousarray(a[::-1])[::-1]
+    if layout == 2:
+        sl = (slice(None, None, -1),) * a.ndim
+        return np.ascontiguousarray(a[sl])[sl]
+    big = np.zeros(a.shape[:-1] + (2 * a.shape[-1],), dtype=a.dtype)
+    big[..., ::2] = a
+    return big[..., ::2]
+
+
+def run_vjp(e, seed, layout=0):
     reset_global_state()
     arrays = [values(s, seed, d, k) for k, (s, d) in enumerate(zip(e.shapes, e.domains))]
-    xs = [mg.tensor(a.copy()) for a in arrays]
+    xs = [mg.tensor(relayout(a, layout), copy=False) for a in arrays]
     out = e.fn(*xs)
-    res = {"label": e.label, "family": e.family, "out_shape": list(out.shape), "sizes": [int(a.size) for a in arrays]}
+    res = {"label": e.label, "family": e.family, "out_shape": list(out.shape), "sizes": [int(a.size) for a in arrays], "layout": layout}
     rs = np.random.RandomState(seed + 7)
     g = rs.randn(*out.shape) if out.shape else np.asarray(rs.randn())
     g = np.asarray(g, dtype=np.float64)
@@ -454,7 +468,7 @@ def main():
         e = E[t["index"]]
         try:
             if t["mode"] == "vjp":
-                out.append(run_vjp(e, t.get("seed", 0)))
+                out.append(run_vjp(e, t.get("seed", 0), t.get("layout", 0)))
             elif t["mode"] == "stale":
                 out.append(run_stale(e, t.get("seed", 0), t.get("operand", 0) % len(e.shapes)))
             else:
